@@ -115,6 +115,16 @@ def it_next(vm, it):
         if a[1] <= 0: return None
         a[1] -= 1; return (vm.clone_val(a[0]),)
     if k == 'repeat': return (vm.clone_val(a[0]),)
+    if k == 'repeat_with': return (vm.call_value(a[0], []),)
+    if k == 'from_fn':
+        r = conc(vm, vm.call_value(a[0], []))
+        return (r.fields[0],) if r.variant == 1 else None
+    if k == 'successors':
+        cur = a[0]
+        if cur is None: return None
+        nx = conc(vm, vm.call_value(a[1], [Ref(Cell(cur))]))
+        a[0] = nx.fields[0] if nx.variant == 1 else None
+        return (cur,)
     if k == 'repeat_n_sym':
         # symbolic count: split on its feasible values (bounded), then behave like repeat_n
         n = vm.concretize(a[1], limit=24)
@@ -303,6 +313,20 @@ def _(vm, a, ci):
 
 @path('repeat', 'iter::repeat', 'std::iter::repeat')
 def _(vm, a, ci): return It('repeat', a[0])
+
+
+@path('repeat_with', 'iter::repeat_with', 'std::iter::repeat_with')
+def _(vm, a, ci): return It('repeat_with', a[0])
+
+
+@path('from_fn', 'iter::from_fn', 'std::iter::from_fn')
+def _(vm, a, ci): return It('from_fn', a[0])
+
+
+@path('successors', 'iter::successors', 'std::iter::successors')
+def _(vm, a, ci):
+    first = conc(vm, a[0])
+    return It('successors', first.fields[0] if first.variant == 1 else None, a[1])
 
 
 @path('successors', 'iter::successors', 'std::iter::successors')
